@@ -2,6 +2,7 @@ import PPProofs.Lemmas.PRHeapDeep
 import PPProofs.Lemmas.PRHeapDeepMemo
 import PPProofs.Lemmas.PRHeapDeepMemoRel
 import PPProofs.Lemmas.PRHeapDeepMemoNames
+import PPProofs.Lemmas.PRHeapDeepViews
 /-!
 # C11 — `ParseResults.deepcopy()` of NESTED groups, at every depth (heap model)
 
@@ -250,6 +251,17 @@ theorem deepcopy_tokens_fresh_full (f : Nat) (h : Heap α) (o : Nat) (hw : TWF h
   have h2 := (FD.reach ho d hd).1
   omega
 
+/-- **(2″) `deepcopy()` preserves BOTH views at every depth**: when everything the original reaches by any route is
+    allocated (`FD`), `dumpN` — tokens, names in order with all occurrences, list-all names, nested results expanded,
+    to every observation depth — of `r.deepcopy()` is that of `r`.  (The named values it shows are the original's
+    own objects, `deepcopy_names_shared`; they show what they showed because `deepcopy()` writes to nothing that
+    exists.) -/
+theorem deepcopy_views (f : Nat) (h : Heap α) (o : Nat) (hw : TWF h f o) (d : Nat) (hd : FD h.next h d o) (k : Nat) :
+    dumpN k (deepcopyN f h o).1 (deepcopyN f h o).2 = dumpN k h o ∧
+    dumpN k (deepcopyN f h o).1 o = dumpN k h o :=
+  ⟨Corr.dump (deepcopyN_ext f h o) k f d o _ (deepcopyN_corr f h o hw) hd,
+   dumpN_ext (deepcopyN_ext f h o) k d o hd⟩
+
 /-- **(5) `copy.deepcopy` / pickle of nested results rebuilds every reachable object**: no allocated cell or object
     of the original heap is written; every object reachable from the copy by ANY route (tokens, named values, at any
     depth) is a new object with a new list cell, a new dict cell and new occurrence lists; everything reachable
@@ -364,6 +376,11 @@ example :
     (view (copyModuleDeep 2 exHeap 5).1 10).1 = [.atom "a"] ∧
     -- `c['g'].append('z')` is seen through `c[0]`, not by the original
     (view (mutate (copyModuleDeep 2 exHeap 5).1 10 (.append (.atom "z"))) 2).1 = [.atom "a"] := by decide +kernel
+
+/-- `deepcopy()` of the same result shows the same (its `g` is the original's inner group, object 2) -/
+example : dumpN 3 (deepcopyN 1 exHeap 5).1 (deepcopyN 1 exHeap 5).2 = dumpN 3 exHeap 5 ∧
+    (view (deepcopyN 1 exHeap 5).1 (deepcopyN 1 exHeap 5).2).2.1 = [("g", [.ref 2]), ("x", [.atom "b"])] := by
+  decide +kernel
 
 /-- … and both show `[['a'], 'b']`, `g: [(0, ['a'])]`, `x: [(1, 'b')]` -/
 example : dumpN 3 (copyModuleDeep 2 exHeap 5).1 15 = dumpN 3 exHeap 5 ∧
